@@ -32,6 +32,10 @@ fn gen(seed: u64, idx: u64, tier: Tier) -> Plan {
     };
     s.log_level = Some(*rng.pick(&[0u8, 0, 3, 4]));
     world_knobs(&mut rng, &mut plan, profile == 6 || profile == 7);
+    if profile == 7 {
+        plan.world.faults.recv_err = 30;
+        plan.world.faults.send_err = 30;
+    }
     let wl = if scenario == "c02.grease" {
         s.fault_pct = match tier {
             Tier::Quick => *rng.pick(&GREASE_P_QUICK),
